@@ -116,7 +116,9 @@ pub fn draw_scenario(t: &mut Tape, ops_filter: &dyn Fn(&Op) -> bool) -> Scenario
     let spec = match front {
         0 => HandleSpec::Plain(0),
         1 => HandleSpec::Sharded(0),
-        _ => HandleSpec::Stack { writer: Some(0), readers: if has_reader { vec![1] } else { vec![] }, auto_sync, checker: CheckerKind::None },
+        // one stack in three compares copies, with a checker that records what
+        // it is shown and accepts it (so that hits still succeed)
+        _ => HandleSpec::Stack { writer: Some(0), readers: if has_reader { vec![1] } else { vec![] }, auto_sync, checker: if t.draw(3) == 0 { CheckerKind::Lenient } else { CheckerKind::None } },
     };
     let tag = 7;
     let plen = draw_size(t);
@@ -141,7 +143,7 @@ pub fn draw_scenario(t: &mut Tape, ops_filter: &dyn Fn(&Op) -> bool) -> Scenario
     let inner_seed = t.draw_u64();
     let chunk = *t.pick(&[8192usize, 1000, 100_000]);
     let desc = format!(
-        "front={} shards={} key_shards=({},{}) missing_root={} pre_writer={:?} pre_reader={:?} reader={} over_capacity={} capacity={} fire={} debris={} auto_sync={} op={:?} chunk={} [{}]",
+        "front={} shards={} key_shards=({},{}) missing_root={} pre_writer={:?} pre_reader={:?} reader={} over_capacity={} capacity={} fire={} debris={} auto_sync={} checker={} op={:?} chunk={} [{}]",
         ["plain", "sharded", "stack/plain", "stack/sharded"][front as usize],
         nshards,
         a,
@@ -155,11 +157,12 @@ pub fn draw_scenario(t: &mut Tape, ops_filter: &dyn Fn(&Op) -> bool) -> Scenario
         fire,
         debris,
         auto_sync,
+        matches!(spec, HandleSpec::Stack { checker: CheckerKind::Lenient, .. }),
         op,
         chunk,
         kn.describe()
     );
-    let sig = crate::runner::hash_str(&format!("{}|{}|{}|{:?}|{:?}|{}|{}|{}|{}|{}", front, missing_root, has_reader, pre_writer, pre_reader, over, debris, fire, op.name(), plen));
+    let sig = crate::runner::hash_str(&format!("{}|{}|{}|{:?}|{:?}|{}|{}|{}|{}|{}|{}", front, missing_root, has_reader, pre_writer, pre_reader, over, debris, fire, op.name(), plen, matches!(spec, HandleSpec::Stack { checker: CheckerKind::Lenient, .. })));
     Scenario { kn, fs0: fs, dirs, spec, key, op, desc, nshards, fire, shard_script: vec![shard_draw(nshards, other)], inner_seed, pre_writer, pre_reader, has_reader, writer_sharded, chunk, sig }
 }
 
